@@ -198,7 +198,7 @@ def main():
         rc, out = run(["go", "run", ".", "-repo", REPO, "-out", os.path.join(LEAN, "SlipVerif", "Gen")],
                       cwd=os.path.join(ROOT, "extract"), env=GOENV)
         reference_tables = []  # Gen modules replaced by their committed reference copy for this run
-        if rc == 3:
+        if rc == 3 or (rc != 0 and "EXTRACT-FAILED " in out):  # `go run` reports a non-zero exit of the program as 1
             # a generator no longer understands the source it reads (renamed table, changed literal
             # shape …): the tie of every property that depends on that module is broken. The other
             # modules were regenerated. Continue with the reference copy of the failed module so that
